@@ -14,7 +14,7 @@ PROP = "C15"
 RULE = (
     "case = population of n in 2..60 pairwise distinct genomes in dimension 1..8 built in one of the modes uniform / clustered "
     "/ collinear / tie-heavy (floored fitness) / tightly converged (spread 1e-6..1e-13 around an offset point), "
-    "distance_factor in [0.3,4], truncation in (0,1] with floor(n*t)>=2, direction; NearestBetterClustering(...).cluster() and "
+    "distance_factor in {0} u [0.3,4], truncation in (0,1] with floor(n*t)>=2, direction; NearestBetterClustering(...).cluster() and "
     ".distances are compared with an independent O(n^2) reference (seed set by object identity, distance multiset to 1e-9 "
     "relative) and re-run on permuted, translated, power-of-two-scaled, generally scaled and mirrored (f,max)->(-f,min) inputs. "
     "Cases where some nearest-better distance is within 1e-9 relative of factor*mean are 'ambiguous' (only distances are "
@@ -73,7 +73,7 @@ def cases(draw):
         fit = rng.uniform(0, 1, size=n) if draw(st.booleans()) else raw
     else:
         fit = raw
-    factor = draw(st.sampled_from([0.3, 0.5, 1.0, 2.0, 3.0, 4.0]))
+    factor = draw(st.sampled_from([0.3, 0.5, 1.0, 2.0, 3.0, 4.0, 0.0]))
     tmin = 2.0 / n if n >= 2 else 1.0
     trunc = draw(st.sampled_from([1.0, 1.0, 0.7, 0.5, 0.3, 0.9]))
     if int(n * trunc) < 2:
